@@ -133,7 +133,7 @@ func (d *DeviceRemote) FeatureByAddress(address *model.FeatureAddressType) api.F
 
 // Get the feature for a given entity, feature type and feature role
 func (r *DeviceRemote) FeatureByEntityTypeAndRole(entity api.EntityRemoteInterface, featureType model.FeatureTypeType, role model.RoleType) api.FeatureRemoteInterface {
-	if len(r.entities) < 1 {
+	if entity == nil {
 		return nil
 	}
 
@@ -180,6 +180,10 @@ func (d *DeviceRemote) UseCases() []model.UseCaseInformationDataType {
 	entity := d.Entity(DeviceInformationAddressEntity)
 
 	nodemgmt := d.FeatureByEntityTypeAndRole(entity, model.FeatureTypeTypeNodeManagement, model.RoleTypeSpecial)
+	// the feature is missing while the detailed discovery data of the device is applied
+	if nodemgmt == nil {
+		return nil
+	}
 
 	data, ok := nodemgmt.DataCopy(model.FunctionTypeNodeManagementUseCaseData).(*model.NodeManagementUseCaseDataType)
 	if ok && data != nil {
